@@ -44,6 +44,10 @@ let handle (toks : string list) : string =
     let id = n_of_int (try Hashtbl.find inv_ids (int_of_string a.(1)) with Not_found -> 999999) in
     let (s', r) = if a.(0) = "ACCEPT" then W.accept_welcome !st id else W.decline_welcome !st id in
     st := s'; fingerprint (res_name r)
+  | "SELFUPDATE" ->
+    let done_ = (try L.assoc "done" facts = "1" with Not_found -> false) in
+    if done_ then st := W.self_updated !st (n_of_int (int_of_string a.(1)));
+    fingerprint (if done_ then "ok" else "err")
   | "KICK" ->
     let applied = (try L.assoc "applied" facts = "1" with Not_found -> false) in
     if applied then st := W.evict !st (n_of_int 2);
